@@ -1,5 +1,204 @@
-(* C10 — property theorems (placeholder until the model is built). *)
-From WI Require Import Lib.Base Lib.Info Model.Walk Proofs.Walk.
-Theorem C10_placeholder : True.
-Proof. exact I. Qed.
-Print Assumptions C10_placeholder.
+(* C10 — Recursive scans report every file once, in order, and survive bad entries.
+
+   With -r, every regular file below the given directories is reported exactly once, in
+   depth-first order with entries sorted by name, and the output equals the concatenation of
+   single-file runs; entries that cannot be opened or are not regular files (dangling links,
+   sockets, FIFOs) are reported or skipped without crashing, blocking or suppressing later
+   entries.  A directory given without -r or a nonexistent path is refused with a non-zero
+   exit status, and bytes supplied on standard input are described like the same bytes in a
+   file.
+
+   Only statements; proofs are in Proofs/Walk.v.  The model (Model/Walk.v) is
+   [main_run q fs argv stdin : list event * status] over file-system trees [fs] (listing of
+   the working directory; entry kinds Reg, Dir, LinkFile, LinkDir, LinkNone, Fifo, Sock);
+   [repaired] is the code as it is now, [pinned] the code before the repairs F9, F10, F10b.
+   [body] is the text printInfo writes for a file of a given name and content (the subject of
+   the other properties): the theorems hold for every such function. *)
+From Coq Require Import Permutation.
+From WI Require Import Lib.Base Lib.Info Lib.Strings Model.Render Model.Dispatch Model.Walk Proofs.Walk.
+Open Scope N_scope.
+
+(* ---- the enumeration that specifies a scan ----
+   [dfs_sorted_regular_files ch d] enumerates depth first the listing [ch] of directory [d]
+   after sorting every listing by name.  The sort is correct: every listing of the sorted tree
+   is ascending in byte-wise (Go string) order, and sorting only reorders — each regular file
+   of the tree occurs in the enumeration exactly as often as in the tree itself (once). *)
+Theorem C10_enumeration_sorted : forall ch,
+  sorted_names (map node_name (sort_listing ch)) = true /\
+  forallb tree_sorted (sort_listing ch) = true.
+Proof. exact sort_listing_sorted. Qed.
+Print Assumptions C10_enumeration_sorted.
+
+Theorem C10_enumeration_complete : forall ch d,
+  Permutation (dfs_sorted_regular_files ch d) (files_in ch d).
+Proof. exact dfs_perm. Qed.
+Print Assumptions C10_enumeration_complete.
+
+(* ---- every regular file once, in order ----
+   For every file system, every argument list of regular files and directories
+   ([arg_ok]: a directory's tree is at most max_depth directories high — the named exclusion
+   of finding F11 — and no path in it reaches PATH_MAX), the run with -r ends with status 0 and
+   the reports on standard output are, in this order, exactly the sorted depth-first
+   enumeration of each argument.  No hypothesis on the kinds of the other entries: FIFOs,
+   sockets, dangling links and links to directories may occur anywhere. *)
+Theorem C10_each_once_in_order : forall fs d rest stdin,
+  plain_arg d = true -> forallb (arg_ok fs) (d :: rest) = true ->
+  exists es, main_run repaired fs (bs "-r" :: d :: rest) stdin = (es, Exit 0) /\
+             reports es = map report_of_pair (flat_map (arg_files fs) (d :: rest)).
+Proof. exact scan_arguments. Qed.
+Print Assumptions C10_each_once_in_order.
+
+(* the statement for one directory, as in DESIGN.md *)
+Theorem C10_each_once_in_order_one_directory : forall fs d ch stdin,
+  plain_arg d = true -> resolve fs d = SDir ch ->
+  (Z.of_nat (height_in ch) <= max_depth)%Z -> paths_ok_in ch d = true ->
+  exists es, main_run repaired fs [bs "-r"; d] stdin = (es, Exit 0) /\
+             reports es = map report_of_pair (dfs_sorted_regular_files ch d).
+Proof. exact scan_one_directory. Qed.
+Print Assumptions C10_each_once_in_order_one_directory.
+
+(* the hypotheses are met by a tree holding every kind of entry *)
+Theorem C10_hypotheses_not_vacuous :
+  let fs := [Dir (bs "d") example_listing] in
+  plain_arg (bs "d") = true /\ forallb (arg_ok fs) [bs "d"] = true /\
+  flat_map (arg_files fs) [bs "d"] = [(bs "d/_/B", bs "2"); (bs "d/a", bs "3"); (bs "d/b", bs "1")].
+Proof. exact example_meets_hypotheses. Qed.
+Print Assumptions C10_hypotheses_not_vacuous.
+
+(* exactly once: in a tree that can exist (valid names, distinct within each directory) scanned
+   under a plain name, the reported paths are pairwise different *)
+Theorem C10_exactly_once : forall d ch,
+  name_ok d = true -> listing_ok ch = true -> paths_ok_in ch d = true ->
+  NoDup (map fst (dfs_sorted_regular_files ch d)).
+Proof. exact enumerated_paths_distinct. Qed.
+Print Assumptions C10_exactly_once.
+
+(* ---- the output is the concatenation of the single-file runs ----
+   Standard output of the scan is the concatenation, over the enumeration, of [report_text];
+   and [report_text (p, c)] is what the run on p alone prints, in any file system in which p
+   names a regular file with content c (any code variant). *)
+Theorem C10_concat_of_singles : forall body argv0 fs d rest stdin,
+  plain_arg d = true -> forallb (arg_ok fs) (d :: rest) = true ->
+  stdout_of body argv0 (fst (main_run repaired fs (bs "-r" :: d :: rest) stdin))
+  = concat (map (report_text body) (flat_map (arg_files fs) (d :: rest))).
+Proof. exact scan_stdout. Qed.
+Print Assumptions C10_concat_of_singles.
+
+Theorem C10_single_file_run : forall body argv0 q fs p c stdin,
+  plain_arg p = true -> resolve fs p = SReg c ->
+  main_run q fs [p] stdin = ([Report p c], Exit 0) /\
+  stdout_of body argv0 (fst (main_run q fs [p] stdin)) = report_text body (p, c).
+Proof.
+  intros. split; [now apply single_file_run|now apply single_file_stdout].
+Qed.
+Print Assumptions C10_single_file_run.
+
+(* in the same file system: for a directory given by a plain name, every path of the enumeration
+   names, for os.Stat, the regular file with the enumerated content — so the single-file run of
+   the theorem above exists for each of them *)
+Theorem C10_enumerated_paths_resolve : forall fs d ch p c,
+  name_ok d = true -> listing_ok fs = true -> resolve fs d = SDir ch ->
+  paths_ok_in ch d = true ->
+  In (p, c) (dfs_sorted_regular_files ch d) -> resolve fs p = SReg c /\ plain_arg p = plain_arg d.
+Proof. exact enumerated_paths_resolve. Qed.
+Print Assumptions C10_enumerated_paths_resolve.
+
+(* ---- bad entries ----
+   (1) the repaired code never crashes, whatever the tree and the arguments, and the only way
+       to block is a FIFO named explicitly as an argument (like cat);
+   (2) an entry that is a FIFO, a socket, a dangling link or a link to a directory changes
+       nothing in what a scan of its directory reports (together with C10_each_once_in_order:
+       entries after it are still reported). *)
+Theorem C10_bad_entries : forall fs argv stdin es st,
+  main_run repaired fs argv stdin = (es, st) ->
+  (forall p, st <> Crashed p) /\
+  (forall p, st = Blocked p -> In p argv /\ resolve fs p = SFifo).
+Proof. exact never_crashes_blocks_only_on_named_fifo. Qed.
+Print Assumptions C10_bad_entries.
+
+Theorem C10_bad_entries_skipped : forall b ch d, bad_entry b = true ->
+  dfs_sorted_regular_files (b :: ch) d = dfs_sorted_regular_files ch d.
+Proof. exact bad_entry_changes_nothing. Qed.
+Print Assumptions C10_bad_entries_skipped.
+
+Theorem C10_scan_never_stops : forall ch d, snd (walk_top repaired ch d) = None.
+Proof. exact walk_top_continues. Qed.
+Print Assumptions C10_scan_never_stops.
+
+(* the code before the repairs violated this: d/{a, m, z} with m a dangling link or a socket
+   (F9: nil dereference) or a FIFO (F10: open blocks) — z is never reported *)
+Theorem C10_bad_entries_refuted_before_repair :
+  main_run pinned (witness_listing (LinkNone (bs "m"))) [bs "-r"; bs "d"] []
+    = ([Report (bs "d/a") (bs "x"); LogLine (bs "d/m")], Crashed (bs "d/m")) /\
+  main_run pinned (witness_listing (Sock (bs "m"))) [bs "-r"; bs "d"] []
+    = ([Report (bs "d/a") (bs "x"); LogLine (bs "d/m")], Crashed (bs "d/m")) /\
+  main_run pinned (witness_listing (Fifo (bs "m"))) [bs "-r"; bs "d"] []
+    = ([Report (bs "d/a") (bs "x")], Blocked (bs "d/m")).
+Proof.
+  split; [exact pinned_dangling_link_crashes|split; [exact pinned_socket_crashes|exact pinned_fifo_blocks]].
+Qed.
+Print Assumptions C10_bad_entries_refuted_before_repair.
+
+Theorem C10_bad_entries_witnesses_repaired : forall bad,
+  In bad [LinkNone (bs "m"); Sock (bs "m"); Fifo (bs "m"); LinkDir (bs "m") [Reg (bs "i") []]] ->
+  main_run repaired (witness_listing bad) [bs "-r"; bs "d"] []
+  = ([Report (bs "d/a") (bs "x"); LogLine (bs "d/m"); Report (bs "d/z") (bs "y")], Exit 0).
+Proof. exact repaired_on_witnesses. Qed.
+Print Assumptions C10_bad_entries_witnesses_repaired.
+
+(* ---- refusals ----
+   Arguments that are regular files are reported; the first directory met without -r, or the
+   first path that does not exist (with or without -r), ends the run with exit status 1. *)
+Theorem C10_refusals_directory : forall q fs pre d ch rest stdin,
+  plain_arg (hd d (map fst pre)) = true ->
+  Forall (fun pc => resolve fs (fst pc) = SReg (snd pc)) pre ->
+  resolve fs d = SDir ch ->
+  main_run q fs (map fst pre ++ d :: rest) stdin = (map report_of_pair pre ++ [Refusal d], Exit 1).
+Proof. exact refuse_directory. Qed.
+Print Assumptions C10_refusals_directory.
+
+Theorem C10_refusals_missing : forall q fs r pre p rest stdin,
+  plain_arg (hd p (map fst pre)) = true ->
+  Forall (fun pc => resolve fs (fst pc) = SReg (snd pc)) pre ->
+  resolve fs p = SMissing ->
+  main_run q fs (argv_of r (map fst pre ++ p :: rest)) stdin = (map report_of_pair pre ++ [LogLine p], Exit 1).
+Proof. exact refuse_missing. Qed.
+Print Assumptions C10_refusals_missing.
+
+(* ---- standard input ----
+   No argument, or a first argument "-" (or ""), with or without -r: the bytes on standard
+   input are described, and with the dispatcher of C07 as [body] the text is the report of the
+   same bytes in a file, minus the "path: " prefix — for every file name that matches no name
+   pattern of the format table ([name_neutral]; "authorized_keys" and "known_hosts" select a
+   parser by name, which standard input cannot).  T1: the name of standard input itself is
+   neutral for the regenerated table. *)
+Theorem C10_stdin_name_neutral : name_neutral stdin_path = true.
+Proof. exact stdin_path_neutral. Qed.
+Print Assumptions C10_stdin_name_neutral.
+
+Theorem C10_stdin_as_file : forall sniff parse argv0 q fs fs' r rest p data stdin',
+  match rest with [] => True | a :: _ => a = [] \/ a = [45] end ->
+  plain_arg p = true -> name_neutral p = true -> resolve fs' p = SReg data ->
+  stdout_of (dispatch_body sniff parse) argv0 (fst (main_run q fs (argv_of r rest) data))
+  = drop (length p + 2) (stdout_of (dispatch_body sniff parse) argv0 (fst (main_run q fs' [p] stdin'))).
+Proof. exact stdin_as_file. Qed.
+Print Assumptions C10_stdin_as_file.
+
+Theorem C10_stdin_hypothesis_examples :
+  name_neutral (bs "f") = true /\ name_neutral (bs "dir/key.pem") = true /\
+  name_neutral (bs "d/authorized_keys") = false.
+Proof. vm_compute. repeat split; reflexivity. Qed.
+Print Assumptions C10_stdin_hypothesis_examples.
+
+(* ---- the depth limit (finding F11, kept) ----
+   Without the hypothesis on the height the property fails: a regular file max_depth+1
+   directories below the scanned directory is in the enumeration, all paths are short, the run
+   ends with status 0 — and nothing is reported. *)
+Theorem C10_depth_refuted : exists fs d ch,
+  resolve fs d = SDir ch /\ paths_ok_in ch d = true /\
+  height_in ch = S (Z.to_nat max_depth) /\
+  length (dfs_sorted_regular_files ch d) = 1%nat /\
+  reports (fst (main_run repaired fs [bs "-r"; d] [])) = [] /\
+  snd (main_run repaired fs [bs "-r"; d] []) = Exit 0.
+Proof. exists deep_witness, (bs "d"), deep_listing. exact deep_witness_facts. Qed.
+Print Assumptions C10_depth_refuted.
